@@ -128,6 +128,28 @@ namespace hv
             }
         };
 
+        // the same scripted scheduler node with a push-fed input ("watchdog": a heartbeat re-arms a time-out next to other pending
+        // alarms): it is evaluated by input ticks at times when none of its own timers is due, and may move or cancel its earliest
+        // pending event there, so that another, already pending event becomes the earliest
+        struct RtWatch
+        {
+            static constexpr auto name = "hv_rtwatch";
+            static void start(Scalar<"id", Int> id, NodeScheduler s, State<Int> n)
+            {
+                n.set(Int{0});
+                RtTimer::rt_ops(id.value(), 0, s, true);
+            }
+            static void eval(In<"a", TS<Int>, InputValidity::Unchecked> a, Scalar<"id", Int> id, NodeScheduler s, DateTime now, State<Int> n, Out<TS<Int>> out)
+            {
+                n.set(n.get() + 1);
+                Line("tev").i("id", id.value()).i("t", off(now)).i("wall", wall_off()).i("ek", n.get()).i("inp", a.modified() ? 1 : 0).i("due", s.is_scheduled_now() ? 1 : 0).i("seq", sim::seq()).emit();
+                RtTimer::rt_ops(id.value(), n.get(), s, false);
+                out.set(Int{n.get()});
+            }
+        };
+        struct WatchDef { long long id; std::string push; };
+        std::vector<WatchDef> g_watches;
+
         const Scenario *g_tsc = nullptr;
 
         struct RtRoot
@@ -137,6 +159,7 @@ namespace hv
             {
                 const auto *ts_int   = ts_type<TS<Int>>();
                 const auto *ts_batch = ts_type<TS<HomogeneousTuple<Int>>>();
+                std::map<std::string, WiringPortRef> push_ports;
                 for (auto &pp : g_push)
                 {
                     PushDef *pd = pp.get();
@@ -160,7 +183,15 @@ namespace hv
                         WiringPortRef ref = w.add_unique_node(std::type_index(typeid(PushTag)), std::move(nb), std::span<const WiringPortRef>{}, Value{});
                         Port<TS<Int>> p{w, std::move(ref)};
                         wire<RtRec>(w, p, Int{pd->id});
+                        push_ports[pd->name] = p.erased();
                     }
+                }
+                for (auto &wd : g_watches)
+                {
+                    auto it = push_ports.find(wd.push);
+                    if (it == push_ports.end()) throw std::invalid_argument("threads: watch needs a queue / conflating push source: " + wd.push);
+                    auto p = wire<RtWatch>(w, Port<TS<Int>>{w, it->second}, Int{wd.id});
+                    wire<RtRec>(w, p, Int{wd.id + 1000});
                 }
                 for (auto &t : g_timers)
                 {
@@ -231,6 +262,12 @@ namespace hv
                 long long id = std::stoll(st.tok.at(1));
                 g_timers.push_back({id});
                 parse_rt_timer_script(id, st.tok.size() > 2 ? st.tok[2] : "");
+            }
+            else if (k == "watch")
+            {   // watch <id> <push name> <tscript>
+                long long id = std::stoll(st.tok.at(1));
+                g_watches.push_back({id, st.tok.at(2)});
+                parse_rt_timer_script(id, st.tok.size() > 3 ? st.tok[3] : "");
             }
             else if (k == "work") g_work[std::stoll(st.tok.at(1))] = std::stoll(st.tok.at(2));
             else if (k == "thread")
